@@ -3,6 +3,7 @@ package vlib
 import (
 	"bufio"
 	"encoding/binary"
+	"encoding/hex"
 	"encoding/json"
 	"fmt"
 	"os"
@@ -37,6 +38,9 @@ type PropSpec struct {
 	Phases      []Phase
 	Require     []string // counters that must be > 0, otherwise the run observed nothing of that kind: exit 2
 	Exhaustive  func(tier string) bool
+	// CrashAnywhere: the property promises that decoding any input never ends the process, so a process-fatal error in
+	// library code counts also when it happens while the child is still building its inputs (outside any case)
+	CrashAnywhere bool
 }
 
 type agg struct {
@@ -307,6 +311,7 @@ func runBatch(spec PropSpec, ph Phase, tier string, seed uint64, work string, b,
 			cmd.Env = append(cmd.Env, "GOCOVERDIR="+filepath.Join(work, "cov"))
 		}
 		cmd.Env = append(cmd.Env, ph.Env...)
+		cmd.Env = append(cmd.Env, "VERIF_LASTINPUT="+out+".lastinput")
 		errPath := fmt.Sprintf("%s.run%d.stderr", out, run)
 		ef, _ := os.Create(errPath)
 		cmd.Stdout, cmd.Stderr = ef, ef
@@ -322,6 +327,32 @@ func runBatch(spec PropSpec, ph Phase, tier string, seed uint64, work string, b,
 		}
 		stderrTxt := tail(errPath, 1<<20)
 		if code == 2 && !open {
+			// A Go process also exits with 2 on a process-fatal error. When that happened in library code while the corpus
+			// was being built (library code running outside any case), the properties that promise crash-free decoding of
+			// any input are refuted by it; for every other property nothing was decided.
+			fn := innermostRepoFunc(stderrTxt)
+			fatal := strings.Contains(stderrTxt, "fatal error: ") || strings.Contains(stderrTxt, "goroutine stack exceeds")
+			if fatal && fn != "?" && spec.CrashAnywhere {
+				key, desc := classifyCrash(stderrTxt, "")
+				key = "while-building-inputs:" + key
+				rp := ReplayPath(spec.ID, key, b, -1)
+				os.MkdirAll(filepath.Dir(rp), 0o755)
+				det := map[string]any{"stderr_tail": tail(errPath, 6000), "exit_code": code}
+				if li, err := os.ReadFile(out + ".lastinput"); err == nil && len(li) >= 8 {
+					n := int(binary.LittleEndian.Uint32(li[4:8]))
+					if n <= len(li)-8 {
+						det["first_layer_type_number"] = binary.LittleEndian.Uint32(li[:4])
+						det["input_hex"] = hex.EncodeToString(li[8 : 8+n])
+					}
+				}
+				r := Replay{Prop: spec.ID, Phase: ph.Name, Tier: tier, Seed: seed, Batch: b, NBatch: n, Case: -1, Key: key,
+					Desc: "decoding an input that the corpus builder tried ended the process: " + desc, Detail: det,
+					How: "gopacket.NewPacket(input, first layer type, gopacket.DecodeOptions{NoCopy: true})"}
+				jb, _ := json.MarshalIndent(r, "", " ")
+				os.WriteFile(rp, jb, 0o644)
+				a.addViol(key, r.Desc, rp, 1)
+				break
+			}
 			a.mu.Lock()
 			a.inconcl = append(a.inconcl, fmt.Sprintf("phase=%s batch=%d child could not start: %s", ph.Name, b, firstLine(stderrTxt)))
 			a.mu.Unlock()
